@@ -2,6 +2,7 @@
 (b) concurrent producers/consumers under the controlled scheduler (added by checks/sched when available)."""
 import json, os, subprocess, time
 import build, common
+from checks import mcsched
 
 IPC_LD = ["-Wl,--wrap=shm_open,--wrap=sem_open"]
 
@@ -17,14 +18,25 @@ def run(prop, tier):
     caps = [1, 2, 3, 4, 5, 6] if tier == "quick" else [1, 2, 3, 4, 5, 6, 7, 8, 9, 12]
     jobs = [(s, m) for s in caps for m in (0, 1, 2)]
     common.parallel(lambda j: common.run_harness(x, list(j), acc, "shmbuf_bfs S=%d mode=%d" % j, timeout=3000, crash_prop=prop), jobs)
+    # (b) concurrent handles under the controlled scheduler: linearizability of write/read/used/clear
+    scripts = [("w", "r"), ("ww", "r"), ("w", "w", "r"), ("wr", "rw"), ("w", "u", "r"), ("wc", "r")] + ([("ww", "rr", "u"), ("wrw", "rwr"), ("w", "w", "w")] if tier == "thorough" else [])
+    p = 2 if tier == "quick" else 3
+    sjobs = [dict(src="harness/sched_ipc.c", ipc=True, args=["shmbuf", "-p", p if len(sc) < 3 else 2, "--"] + list(sc)) for sc in scripts]
+    sacc = mcsched.run_jobs(prop, tier, sjobs)
+    acc.viols += sacc.viols; acc.jobs += sacc.jobs; acc.samples += sacc.samples[:3]; acc.incomplete += sacc.incomplete
+    for k, v in sacc.stats.items():
+        acc.add_stat("sched_" + k, v)
     s = acc.stats
-    cov = dict(states=s.get("states", 0), transitions=s.get("transitions", 0),
-               traces_validated_against_impl=s.get("canon_on_replay_checks", 0),
-               evaluations=s.get("transitions", 0), distinct_nontrivial=s.get("nontrivial", 0),
+    cov = dict(states=s.get("states", 0) + s.get("sched_distinct_fingerprints", 0), transitions=s.get("transitions", 0) + s.get("sched_visible_steps", 0),
+               traces_validated_against_impl=s.get("canon_on_replay_checks", 0) + s.get("sched_executions", 0),
+               concurrent_executions=s.get("sched_executions", 0),
+               evaluations=s.get("transitions", 0) + s.get("sched_executions", 0), distinct_nontrivial=s.get("nontrivial", 0) + s.get("sched_nontrivial_executions", 0),
                rule="for each capacity S in %s and each size argument of the second handle (S, S+3, max(1,S-2)): BFS to closure over (read_pos, write_pos) "
                     "read from the segment header; from every state write(len) and read(len) for every len in 0..S+1 and clear, through either handle; after each: "
                     "return value, FIFO bytes (fresh sequence-numbered data), used/free through both handles, used+free == S, no IPC name left after owner free; "
-                    "non-trivial = transitions whose copy wraps around the end of the ring" % caps,
+                    "non-trivial = transitions whose copy wraps around the end of the ring. Concurrent part: 2-3 threads with own handles of one name (capacity 4) running scripts over "
+                    "write(2)/read(3)/used/clear, all interleavings with <= %d preemptions at every IPC system call, results checked against every sequential order of a byte deque, "
+                    "happens-before monitor on the aliased segment shadow" % (caps, p),
                exhaustive=True)
     assumptions = ["ring code never branches on data bytes, so (read_pos, write_pos) is a sufficient state; byte values are checked along every transition",
                    "the result of a zero-length read/write is not defined by the property (the code rejects it with -1): only 'state unchanged' is checked for len 0",
